@@ -10,6 +10,7 @@ not), every list of inputs and outputs.
 -/
 import PvProofs.C04
 import PvProofs.Lemmas.MkrBank
+import PvProofs.Lemmas.MkrBankMerge
 import PvModel.MkrSendDriver
 
 namespace PvProofs.C04
@@ -331,6 +332,154 @@ theorem denied_multiSend_leaves_ledger_unchanged (w : World) (l : Ledger) (ins o
     exact absurd (hall p hp).1 hd
 
 
+/-! ### The two representation choices of the multi-send model are harmless
+
+`debitPhase` debits each paying address with the UNMERGED concatenation of its inputs and `creditAll`
+credits the receivers pair by pair; the Go code keeps one merged `sdk.Coins` (`Coins.Add`: sorted, one entry
+per denom) per address in order of first appearance, debits it through `subUnlockedCoins` (validity test +
+coin loop) and credits it through `addCoins` (validity test again).  `inputOutputCoinsProvMerged` follows
+that text; the theorems below show both give the same error or ledgers with the same balances and supply —
+for every world, ledger and list of inputs/outputs. -/
+
+/-- Two ledgers that mean the same: every balance and every supply agree. -/
+def SameBalances (l1 l2 : Ledger) : Prop :=
+  (∀ a d, l1.bal a d = l2.bal a d) ∧ ∀ d, l1.supply d = l2.supply d
+
+/-- The same error, or ledgers that mean the same. -/
+def SameOutcome : Except Err Ledger → Except Err Ledger → Prop
+  | .error e, .error e' => e = e'
+  | .ok l1, .ok l2 => SameBalances l1 l2
+  | _, _ => False
+
+/-- `sdk.Coins.Add` keeps every denom's amount and, on positive coins, yields a valid `sdk.Coins`
+(so the second `IsValid` test inside `subUnlockedCoins`/`addCoins` on the merged amount never fires). -/
+theorem coinsAdd_valid_same_amounts (amt coins : Coins) (h1 : isValid amt = true) (h2 : isValid coins = true) :
+    isValid (coinsAdd amt coins) = true ∧
+    ∀ d, Coins.amountOf (coinsAdd amt coins) d = Coins.amountOf amt d + Coins.amountOf coins d := by
+  refine ⟨isValid_canon _ (allPos_append (allPos_of_isValid h1) (allPos_of_isValid h2)), fun d => ?_⟩
+  simp [coinsAdd, amountOf_canon]
+
+/-- **Shortcut 1 (unmerged concatenation for the merged coins) is harmless**: debiting each paying address
+once with its merged `sdk.Coins` through `subUnlockedCoins`, in order of first appearance, fails exactly
+when the model's debit phase fails (with the same error) and otherwise leaves the same balances. -/
+theorem debitPhase_merged_same (w : World) (l : Ledger) (ins : List IO)
+    (hv : ∀ i ∈ ins, isValid i.coins = true) :
+    SameOutcome (debitMerged w l (mergeAmounts (ins.map fun i => (i.addr, i.coins)))) (debitPhase w l ins) := by
+  have hpos : ∀ i ∈ ins, AllPos i.coins := fun i hi => allPos_of_isValid (hv i hi)
+  have hx : ∀ p ∈ inPairs ins, AllPos p.2 := by
+    intro p hp
+    obtain ⟨i, hi, rfl⟩ := List.mem_map.mp hp
+    exact hpos i hi
+  obtain ⟨hn, hvm, _, ht, hs⟩ := mergeAmounts_spec (inPairs ins) hx
+  have hiff := debitPhaseAux_ok_iff w ins.length ins l (Nat.le_refl _)
+  have hfund := merged_funded_iff w l ins hpos
+  show SameOutcome (debitMerged w l (mergeAmounts (inPairs ins))) (debitPhase w l ins)
+  rcases debitMerged_spec w (mergeAmounts (inPairs ins)) l hn hvm with ⟨he, hnot⟩ | ⟨l', hok, hall, hbal, hsup⟩
+  · rw [he]
+    cases hm : debitPhase w l ins with
+    | error e =>
+      have := debitPhaseAux_err w ins.length ins l e hm
+      subst this
+      rfl
+    | ok l1 => exact absurd (hfund.mpr (hiff.mp ⟨l1, hm⟩)) hnot
+  · rw [hok]
+    obtain ⟨l1, hm⟩ := hiff.mpr (hfund.mp hall)
+    have hm' : debitPhase w l ins = .ok l1 := hm
+    rw [hm']
+    refine ⟨fun a d => ?_, fun d => ?_⟩
+    · rw [hbal a d, bal_debitPhase w l l1 ins hm a d, ht, creditTotal_inPairs]
+    · rw [hsup d, supply_debitPhaseAux w ins.length ins l l1 (Nat.le_refl _) hm d, hs, allCoins_inPairs]
+
+/-- **Shortcut 2 (receivers credited pair by pair) is harmless**: crediting each returned receiver once
+with its merged `sdk.Coins` through `addCoins` always succeeds (the merged amounts are valid) and gives
+the balances of crediting pair by pair. -/
+theorem creditAll_merged_same (l1 l2 : Ledger) (h : SameBalances l1 l2) (credits : List (Addr × Coins))
+    (hv : ∀ p ∈ credits, isValid p.2 = true) :
+    ∃ l', creditMerged l1 (mergeAmounts credits) = .ok l' ∧ SameBalances l' (creditAll l2 credits) := by
+  obtain ⟨_, hvm, _, ht, hs⟩ := mergeAmounts_spec credits fun p hp => allPos_of_isValid (hv p hp)
+  obtain ⟨l', hok, hbal, hsup⟩ := creditMerged_spec (mergeAmounts credits) l1 hvm
+  refine ⟨l', hok, fun a d => ?_, fun d => ?_⟩
+  · rw [hbal a d, bal_creditAll, ht, h.1]
+  · rw [hsup d, supply_creditAll, hs, h.2]
+    rfl
+
+/-- **InputOutputCoinsProv with the merged maps, as written, and the model agree** on every call: the
+same error, or ledgers with the same balances and supply. -/
+theorem inputOutputCoinsProv_merged_same (w : World) (l : Ledger) (ins outs : List IO) :
+    SameOutcome (inputOutputCoinsProvMerged w l ins outs) (inputOutputCoinsProv w l ins outs) := by
+  unfold inputOutputCoinsProvMerged inputOutputCoinsProv
+  by_cases hi : ins.isEmpty = true
+  · simp only [hi, if_true]; rfl
+  by_cases ho : outs.isEmpty = true
+  · simp only [hi, ho, if_true, Bool.false_eq_true, if_false]; rfl
+  by_cases hm : (Decidable.decide (ins.length > 1) && Decidable.decide (outs.length > 1)) = true
+  · simp only [hi, ho, hm, if_true, Bool.false_eq_true, if_false]; rfl
+  simp only [hi, ho, hm, Bool.false_eq_true, if_false]
+  cases hvio : validateInputsOutputs ins outs with
+  | error e => rfl
+  | ok u =>
+    have hvi : ∀ i ∈ ins, isValid i.coins = true := by
+      intro i hi'
+      unfold validateInputsOutputs at hvio
+      by_cases h : (ins.all ioValid && outs.all ioValid) = true
+      · simp only [Bool.and_eq_true, List.all_eq_true] at h
+        have := h.1 i hi'
+        unfold ioValid at this
+        simp only [Bool.and_eq_true] at this
+        exact this.1
+      · simp [h] at hvio
+    have hd := debitPhase_merged_same w l ins hvi
+    cases hgo : debitMerged w l (mergeAmounts (ins.map fun i => (i.addr, i.coins))) with
+    | error e =>
+      cases hmo : debitPhase w l ins with
+      | error e' => rw [hgo, hmo] at hd; exact hd
+      | ok l2 => rw [hgo, hmo] at hd; exact hd.elim
+    | ok l1 =>
+      cases hmo : debitPhase w l ins with
+      | error e' => rw [hgo, hmo] at hd; exact hd.elim
+      | ok l2 =>
+        rw [hgo, hmo] at hd
+        cases hr : restrictAll w (pairs ins outs) with
+        | error e => rfl
+        | ok credits =>
+          obtain ⟨_, hc⟩ := (restrictAll_ok_iff w (pairs ins outs) credits).mp hr
+          have hcv : ∀ p ∈ credits, isValid p.2 = true := by
+            intro p hp
+            rw [hc] at hp
+            obtain ⟨q, hq, rfl⟩ := List.mem_map.mp hp
+            exact pairs_coins_valid ins outs hvio q hq
+          obtain ⟨l', hok, hsame⟩ := creditAll_merged_same l1 l2 hd credits hcv
+          show SameOutcome (creditMerged l1 (mergeAmounts credits)) (.ok (creditAll l2 credits))
+          rw [hok]
+          exact hsame
+
+/-- … hence everything proved about the model's multi-send holds of the merged form: it succeeds exactly
+when the model does, and then every balance is the model's. -/
+theorem inputOutputCoinsProvMerged_ok_iff (w : World) (l : Ledger) (ins outs : List IO) :
+    (∃ l', inputOutputCoinsProvMerged w l ins outs = .ok l') ↔ ∃ l'', inputOutputCoinsProv w l ins outs = .ok l'' := by
+  have h := inputOutputCoinsProv_merged_same w l ins outs
+  cases h1 : inputOutputCoinsProvMerged w l ins outs with
+  | error e =>
+    cases h2 : inputOutputCoinsProv w l ins outs with
+    | error e' => simp
+    | ok l2 => rw [h1, h2] at h; exact h.elim
+  | ok l1 =>
+    cases h2 : inputOutputCoinsProv w l ins outs with
+    | error e' => rw [h1, h2] at h; exact h.elim
+    | ok l2 => simp
+
+theorem multiSendMerged_moves_exactly (w : World) (l l' : Ledger) (ins outs : List IO)
+    (h : inputOutputCoinsProvMerged w l ins outs = .ok l') (a : Addr) (d : Denom) :
+    l'.bal a d = l.bal a d - inTotal ins a d + creditTotal ((pairs ins outs).map (resolved w)) a d := by
+  have hs := inputOutputCoinsProv_merged_same w l ins outs
+  rw [h] at hs
+  cases h2 : inputOutputCoinsProv w l ins outs with
+  | error e => rw [h2] at hs; exact hs.elim
+  | ok l2 =>
+    rw [h2] at hs
+    rw [hs.1 a d]
+    exact multiSend_moves_exactly w l l2 ins outs h2 a d
+
 /-! ### The driver's configurations -/
 
 /-- Every configuration the correspondence driver parses (`send` and `bank` lines alike) carries the
@@ -388,5 +537,24 @@ example :
   intro p hp
   simp only [pairs, List.map_cons, List.map_nil, List.mem_cons, List.not_mem_nil, or_false] at hp
   rcases hp with rfl | rfl <;> rfl
+
+/-- Non-vacuity (and that merging really happens): `A` pays two inputs with a common denom, the merged
+debit is ONE `sdk.Coins` `[4rs, 1usd]`; both forms succeed. -/
+example :
+    let ins : List IO := [⟨"A", [("rs", 3)]⟩, ⟨"A", [("rs", 1), ("usd", 1)]⟩]
+    let outs : List IO := [⟨"B", [("rs", 4), ("usd", 1)]⟩]
+    mergeAmounts (ins.map fun i => (i.addr, i.coins)) = [("A", [("rs", 4), ("usd", 1)])] ∧
+    (inputOutputCoinsProvMerged exWorld exLedger ins outs).toBool = true ∧
+    (inputOutputCoinsProv exWorld exLedger ins outs).toBool = true ∧
+    (∀ i ∈ ins, isValid i.coins = true) := by
+  refine ⟨by decide, by rfl, by rfl, by decide⟩
+
+/-- creditAll_merged_same: two credits for the same receiver with a common denom are merged into ONE
+`sdk.Coins` `[3rs, 1usd]`; the ledgers before are the same; the credits are valid. -/
+example :
+    let credits : List (Addr × Coins) := [("B", [("rs", 2)]), ("C", [("usd", 7)]), ("B", [("rs", 1), ("usd", 1)])]
+    mergeAmounts credits = [("B", [("rs", 3), ("usd", 1)]), ("C", [("usd", 7)])] ∧
+    SameBalances exLedger exLedger ∧ (∀ p ∈ credits, isValid p.2 = true) := by
+  refine ⟨by decide, ⟨fun _ _ => rfl, fun _ => rfl⟩, by decide⟩
 
 end PvProofs.C04
